@@ -657,6 +657,20 @@ class Models(Structural):
             x = self.np_array(x)
         return (is_arr(x) and x.dtype in ('int', 'bool')) or (not is_arr(x) and T.is_int_like(N(x)) and not isinstance(N(x), bool))
 
+    @reg('numpy.rint')
+    def np_rint(self, x):
+        """round half to even; always floating point (np.round keeps an integer dtype, np.rint does not)"""
+        return self._ew1(lambda v: T.to_real(T.sround(v)), x, 'float')
+
+    @reg('numpy.round', 'numpy.around')
+    def np_round(self, x, decimals=0, out=None):
+        """round half to even (same rule as the builtin round); floating result for floating input, integers unchanged"""
+        if N(decimals) != 0 or out is not None:
+            raise EngineError('numpy.round(decimals= / out=) not modelled')
+        if self._is_intlike_input(x):
+            return self._ew1(lambda v: v, x, 'int') if not (is_arr(x) and x.dtype == 'bool') else x
+        return self._ew1(lambda v: T.to_real(T.sround(v)), x, 'float')
+
     @reg('numpy.ceil')
     def np_ceil(self, x):
         # NumPy >= 2.1 (installed: 2.5): integer input stays integer (identity); floating input gives floating whole numbers
